@@ -36,6 +36,9 @@ func run(out *os.File) error {
 	maxCases := flag.Int("max", 0, "execute at most this many cases (seeded sample); 0 = all")
 	workers := flag.Int("workers", 12, "service instances running in parallel")
 	concrete := flag.Bool("concrete", false, "re-execute recorded cases (keeps id and spelling variant)")
+	prepare := flag.String("prepare", "", "do not execute: write the concrete requests of the (far peer) cases to this file for the "+
+		"in-package executor, and the cases with id / variant / seed to -trace")
+	rawPath := flag.String("raw", "", "do not execute: complete the cases (as written by -prepare) from the in-package executor's report")
 
 	flag.Parse()
 
@@ -80,7 +83,7 @@ func run(out *os.File) error {
 
 		c.Obs, c.Conc = nil, nil
 
-		if !*concrete {
+		if !*concrete && *rawPath == "" {
 			c.V = rng.Intn(1 << 16)
 			c.Seed = *seed
 		}
@@ -98,7 +101,7 @@ func run(out *os.File) error {
 	}
 
 	for i, c := range cases {
-		if !*concrete || c.ID == "" {
+		if (!*concrete && *rawPath == "") || c.ID == "" {
 			c.ID = fmt.Sprintf("c%d", i+1)
 		}
 	}
@@ -106,6 +109,49 @@ func run(out *os.File) error {
 	w, err := trace.Create(*tracePath)
 	if err != nil {
 		return err
+	}
+
+	if *prepare != "" {
+		pw, err := trace.Create(*prepare)
+		if err != nil {
+			return err
+		}
+
+		pw.Emit(c09.FarSetup())
+
+		for _, c := range cases {
+			pw.Emit(c09.Prepare(c))
+			w.Emit(c)
+		}
+
+		fmt.Fprintf(out, "PREPARED %d\n", w.Lines())
+
+		if err := pw.Close(); err != nil {
+			return err
+		}
+
+		return w.Close()
+	}
+
+	if *rawPath != "" {
+		raws, err := readRaw(*rawPath)
+		if err != nil {
+			return err
+		}
+
+		for _, c := range cases {
+			raw, ok := raws[c.ID]
+			if !ok {
+				return fmt.Errorf("no report for case %s", c.ID)
+			}
+
+			c09.ProjectRaw(c, raw)
+			w.Emit(c)
+		}
+
+		fmt.Fprintf(out, "PROJECTED %d\n", w.Lines())
+
+		return w.Close()
 	}
 
 	runErr := c09.RunCases(cases, w, c09.Options{Workers: *workers, Cert: cert})
@@ -117,4 +163,32 @@ func run(out *os.File) error {
 	fmt.Fprintf(out, "EXECUTED %d\n", w.Lines())
 
 	return runErr
+}
+
+func readRaw(path string) (map[string]c09.RawObs, error) {
+	f, err := os.Open(path)
+	if err != nil {
+		return nil, err
+	}
+	defer f.Close()
+
+	out := map[string]c09.RawObs{}
+
+	sc := bufio.NewScanner(f)
+	sc.Buffer(make([]byte, 1<<20), 1<<26)
+
+	for sc.Scan() {
+		if len(sc.Bytes()) == 0 {
+			continue
+		}
+
+		var r c09.RawObs
+		if err := json.Unmarshal(sc.Bytes(), &r); err != nil {
+			return nil, fmt.Errorf("bad report line: %w", err)
+		}
+
+		out[r.ID] = r
+	}
+
+	return out, sc.Err()
 }
